@@ -11,6 +11,7 @@ RULE = ("column lists over all builder options: every type, string widths {0,1,2
         "foreign keys, every flag combination, 1..32 columns, names up to the longest the name checks admit; every 16-bit type "
         "word through with_bitfield (hook); the schema is read with tables() right after create_table and after save + reopen; "
         "non-trivial = at least one non-default attribute; distinct = distinct command lists")
+RULE = RULE + ('  Also create_table in a package WITHOUT a _Validation table (an independently encoded file): an enumeration, a value range, a category or a foreign key, each on its own, is refused; plain columns are accepted and reopen.')
 ASSUMPTIONS = ["foreign keys are observable only through the hook (Column::foreign_key is crate-private)"]
 KINDS = {"schema", "gate", "panic", "reopen", "err-changed"}
 
@@ -62,6 +63,30 @@ def gen_cases(rng, tier, info):
         h.drop_table("Dir"); h.obs()
         h.reopen(); h.obs()
         cases.append(Case("dotted-names-%d" % j, h.cmds))
+    # a package WITHOUT a _Validation table (a file made by another tool): a column attribute that only _Validation can
+    # record -- an enumeration, a value range, a category, a foreign key, each on its own -- is refused rather than accepted
+    # now and lost on the next open; plain columns are accepted and reopen
+    import msienc
+    import props.c02 as F
+    for j in range(3):
+        tables = {"Seed": ([mk("K", "i16", pk=True), mk("V", ("str", 8), null=True)], [[1, "a"]])}
+        opts = dict(long_refs=(j == 1), holes=0, dups=0, overcount=0, stale=0, validation=False, shuffle_catalog=False,
+                    odd_int_sizes=False, layout="plain")
+        clsid, entries, expected = msienc.encode_db(rng, j, 65001, tables, [(2, 30, "t")], {}, **opts)
+        db = F.start_db(j, 65001, tables, {}, opts, expected)
+        h = G.History(rng, j, observe="snapshot")
+        h.db = db.clone()
+        h.cmds = [msienc.enc_open_raw(clsid, entries), "(snapshot)"]
+        for k, col in enumerate([mk("E", ("str", 3), null=True, enum=["Sat", "Sun"]), mk("R", "i16", null=True, rng=(1, 9)),
+                                 mk("C", ("str", 8), null=True, cat="Identifier"), mk("F", "i16", null=True, fk=("Seed", 1)),
+                                 mk("P", ("str", 8), null=True), mk("E2", ("str", 0), enum=["x"])]):
+            h.add_table("N%d" % k, [mk("K", "i16", pk=True), col])
+            h.obs()
+        h.reopen(["flush", "into_inner", "drop"][j])
+        h.obs()
+        c = Case("no-validation-%d" % j, h.cmds, ("foreign",))
+        c.start_db = db
+        cases.append(c)
     names = ["T", "Tab_1", "A" * 31, "A" * 32, "A" * 33, "Zz.9"]
     for j in range(0, len(defs), 4):
         h = G.History(rng, rng.choice([0, 1, 2]), observe="snapshot")
@@ -108,6 +133,14 @@ def oracle(ctx):
                     w = sx[2] & 0xFFFF
                     if (w & 0x800) or (w & 0xFF) in (1, 2, 4):
                         bad.append({"kind": "schema", "what": "type word 0x%04x refused" % w, "cmds": [cmd], "impl": o})
+            continue
+        if "foreign" in c.tags:
+            import props.c02 as F
+            for f in G.walk(c.cmds, outs, decode=F.decode_cp, start_db=c.start_db, sort_catalog=True, accounting=False):
+                if f["kind"] in KINDS | {"open", "meta"}:
+                    f["cmds"] = [x if len(x) < 4000 else x[:4000] + " ...)" for x in f["cmds"]]
+                    bad.append(f)
+                    break
             continue
         for f in G.walk(c.cmds, outs):
             if f["kind"] in KINDS:
